@@ -665,16 +665,31 @@ def rule_int_format(rep: Report, repo: Repo, clo: List[Tuple[str, str, ast.Funct
     from ..excflow import refusal_tests
     from ..pyfacts import expand_private_calls, eval_int_expr
 
-    def bounded_in(rel_: str, q_: str, fn_: ast.FunctionDef, text: str) -> bool:
+    def bounded_in(rel_: str, q_: str, fn_: ast.FunctionDef, text: str, after: Optional[ast.AST] = None) -> bool:
         """some refusal of fn_ (private helpers of its class read through) fires for `text` = +10^5000 and one for -10^5000: whatever
-        goes on from here is a bounded value"""
+        goes on from here is a bounded value. `after`: a store into `text` - only refusals that come AFTER it (in statement order) test the
+        stored value; one that stands before it tested the old value"""
         cls_ = q_.split('.')[0] if '.' in q_ else None
         try:
             fx = expand_private_calls(repo, rel_, fn_, cls_)
         except AnalysisError:
             fx = fn_
+        order_: Dict[int, int] = {}
+
+        def dfs(n_: ast.AST) -> None:
+            order_[id(n_)] = len(order_)
+            for ch in ast.iter_child_nodes(n_):
+                dfs(ch)
+        dfs(fx)
+        store_pos = -1
+        if after is not None:
+            want = norm(after)
+            cands = [order_[id(x)] for x in ast.walk(fx) if isinstance(x, (ast.Assign, ast.AugAssign, ast.AnnAssign)) and norm(x) == want]
+            store_pos = max(cands) if cands else 10 ** 9          # the store itself was not found in the expanded text: nothing can be claimed
         hit = {1: False, -1: False}
         for _r, t in refusal_tests(fx):
+            if order_.get(id(_r), 10 ** 9) < store_pos:
+                continue
             names = {norm(x) for x in ast.walk(t) if isinstance(x, (ast.Name, ast.Attribute))}
             if text not in names:
                 continue
@@ -768,7 +783,7 @@ def rule_int_format(rep: Report, repo: Repo, clo: List[Tuple[str, str, ast.Funct
                     continue
                 base_ = tg_.value if isinstance(tg_, ast.Subscript) else tg_
                 if isinstance(base_, ast.Attribute) and hot_(val_, t) and base_.attr not in fields:
-                    if isinstance(tg_, ast.Attribute) and bounded_in(rel, q, fn, norm(tg_)):
+                    if isinstance(tg_, ast.Attribute) and bounded_in(rel, q, fn, norm(tg_), after=n):
                         continue
                     # a private "do the step" helper: the refusal may stand in its callers, right after the call - every caller that
                     # hands it such a value has to bound the attribute itself
